@@ -22,6 +22,8 @@ necessary to account for:
     may also differ.
 """
 
+from copy import copy
+
 
 def get_qdk_gates():
     """Map gate name of the abstract format to the equivalent gate name used in
@@ -79,6 +81,7 @@ def translate_c_to_qsharp(source_circuit, operation="MyQsharpOperation", save_me
     # Generate Q# strings with the right syntax, order and values for the gate inputs
     body_str = ""
     for gate in source_circuit._gates:
+        gate = copy(gate)  # the source circuit is only read: renaming below must not reach it
         if gate.control is not None:
             control_string = '['
             num_controls = len(gate.control)
